@@ -370,9 +370,11 @@ static std::string garbage_plist(Rng& g, Out& out) {
     oasis_write_unsigned_integer(w.o, num);
     for (auto x : w.bytes()) b.push_back(x);
     unsigned len = (unsigned)g.below(3 * num + 4);
+    unsigned run = 0;  // at most 4 groups per integer: every coordinate the reader forms stays exact in a double
     for (unsigned i = 0; i < len; i++) {
         uint8_t v = (uint8_t)g.below(256);
-        if (g.chance(60)) v &= 0x7F;
+        if (g.chance(60) || run >= 3) v &= 0x7F;
+        run = (v & 0x80) ? run + 1 : 0;
         b.push_back(v);
     }
     if (g.chance(3)) {  // overflowing magnitude: ten continuation groups
